@@ -25,13 +25,17 @@ func implPass(raw json.RawMessage) (any, error) {
 	}
 	res, err := w.Schedule()
 	if err != nil {
-		return world.Outcome{Err: err.Error()}, nil
+		return world.Outcome{Err: errClass(err), Faults: w.FiredFaults(), ErrorLogs: w.ErrorLogs()}, nil
 	}
-	return world.Extract(res), nil
+	out := world.Extract(res)
+	out.Faults, out.ErrorLogs = w.FiredFaults(), w.ErrorLogs()
+	return out, nil
 }
 
 var passOpts = world.GenOpts{CapOverride: 0.3, MultiTaint: 0.3, InterPod: 0.15, NodeAffinity: 0.45, Existing: 0.7, Limits: 0.2,
-	Volumes: 0.3, Namespaces: 0.1, LabelInterplay: 0.2}
+	Volumes: 0.3, Namespaces: 0.1, LabelInterplay: 0.2, DefaultSpread: 0.05, ListFaults: 0.03}
+
+func errClass(err error) string { return err.Error() }
 
 // genExistingSeq: one or two nodes (any lifecycle stage, possibly unmanaged), and a BATCH of two to five small pods without
 // inter-pod constraints; every NodePool has a CPU limit of 0 so that no new capacity can be opened: every pod is evaluated
